@@ -692,6 +692,13 @@ impl Run {
                 self.m.slashes[vi] += 1;
                 self.stats.fault("slash");
                 let r_num = (1000 - p_milli) as u128;
+                // does any delegation to the slashed validator survive as a shown (whole-token) delegation?
+                let mut any_left = false;
+                for d in 0..nd {
+                    if self.shown(d, vi).unwrap_or(0) > 0 {
+                        any_left = true;
+                    }
+                }
                 for d in 0..nd {
                     for vv in 0..nv {
                         let s = shown_before[d][vv];
@@ -728,7 +735,10 @@ impl Run {
                         if s > 0 && s2 == 0 {
                             self.stats.probe("delegation_wiped_by_slash");
                         }
-                        if s2 > 0 && self.pending(d, vv) != pending_before[d][vv] {
+                        // accrued rewards stay: for every delegation still shown, and for sub-token ones too as long
+                        // as the validator keeps any shown delegation (only when nothing whole is left may the
+                        // delegations, and what hangs on them, be removed entirely)
+                        if (s2 > 0 || any_left) && self.pending(d, vv) != pending_before[d][vv] {
                             self.v(P16, "rewards_touched", format!("{}: accrued reward of pair ({},{}) went {} -> {}", what, d, vv, pending_before[d][vv], self.pending(d, vv)));
                             return;
                         }
@@ -913,7 +923,7 @@ pub fn build(case: &Case) -> Run {
     let apr = case.apr.min(10_000);
     let commissions: Vec<u32> = (0..nv).map(|i| case.commissions.get(i).copied().unwrap_or(0).min(10_000)).collect();
     let init = case.init_balance.min(1_000_000_000) as u128;
-    let unbonding = case.unbonding_secs.clamp(1, 30 * 86400);
+    let unbonding = case.unbonding_secs.min(30 * 86400);
     let addrs2 = addrs.clone();
     let vals2 = validators.clone();
     let comm2 = commissions.clone();
@@ -1072,7 +1082,7 @@ impl Engine for StakeSim {
         let rates = [0u32, 1, 500, 1000, 1234, 2500, 5000, 9999, 10_000];
         let commissions = (0..nv).map(|_| *rng.pick(&rates)).collect();
         let apr = *rng.pick(&[0u32, 1, 300, 1000, 1000, 2500, 7777, 10_000]);
-        let unbonding_secs = *rng.pick(&[1u64, 60, 3600, 86_400, 21 * 86_400, 30 * 86_400]);
+        let unbonding_secs = *rng.pick(&[0u64, 1, 60, 60, 3600, 86_400, 21 * 86_400, 30 * 86_400]);
         let nops = 10 + rng.usize(if cfg.tier == Tier::Thorough { 110 } else { 50 });
         // swarm weights: msg, batch, withdraw, set-withdraw, slash, advance
         let mut w = [10u32, 2, 4, 1, 3, 8];
